@@ -40,9 +40,11 @@ inductive WS : Stmt → Prop
       __M_writer(filter(__M_buf.getvalue()))` -/
   | textTag {b} (e) : WS b →
       WS (.seq (.prim .pushWriter) (.tryFinally b (.seq (.prim .popBufferAndWriter) (.write e))))
-  /-- `nextcaller = Namespace(ccall(__M_caller))`, `try: __M_writer(expr) finally: nextcaller = None` -/
+  /-- `__M_nextcaller = nextcaller`, `nextcaller = Namespace(ccall(__M_caller))`,
+      `try: __M_writer(expr) finally: nextcaller = __M_nextcaller` -/
   | callTag {d} (e) : WS d →
-      WS (.seq (.setNextCaller d) (.tryFinally (.write e) (.prim .clearNextCaller)))
+      WS (.seq (.prim .saveNextCaller)
+            (.seq (.setNextCaller d) (.tryFinally (.write e) (.prim .restoreNextCaller))))
 
 inductive WF : Stmt → Prop
   /-- not buffered, filtered or cached -/
